@@ -28,6 +28,9 @@ def apply_pre(a, pre):
         boolean = pred or (getattr(a, 'is_expression', False) and a.data_type.value == 1)
         try:
             if step == 'simplify':
+                # simplify folds constants eagerly: closed sub-terms beyond the size bound (power towers) never return
+                if not ev.closed_ok(astx.to_model(a)):
+                    return None
                 a = rw.simplify(a)
             elif step == 'negate':
                 if not boolean:
